@@ -120,7 +120,15 @@ def case_tiled(ctx, c):
     ctx.sample({"fn": "tiled_choice", "a": a.tolist(), "size": size, "rng": rname}) if c % 97 == 0 else None
     pw = None
     if g.random() < 0.35:        # explicit option weights for the incomplete last set (still without replacement)
-        pw = g.uniform(0.1, 1.0, n); pw = pw / pw.sum(); icls += "/weighted remainder"
+        pw = g.uniform(0.1, 1.0, n)
+        if g.random() < 0.5 and n > 1:
+            # options of probability exactly zero: they can never fill the incomplete last set, but every complete set still
+            # holds them; enough positive options are kept for the remainder to be drawn without replacement
+            rem = k % n
+            nz = int(g.integers(1, max(2, n - rem + 1)))
+            if n - nz >= max(rem, 1):
+                pw[g.permutation(n)[:nz]] = 0.0; icls += "/zero-probability options"
+        pw = pw / pw.sum(); icls += "/weighted remainder"
     ok, out = guarded(ctx, "tiled", icls, coords, lambda: tiled_choice(a, size, replace=False, p=pw, rng=rng))
     if ok:
         O.check_tiled(ctx, a, size, out, icls, coords)
